@@ -134,7 +134,7 @@ pub fn expected_parse(m: &Model, root: &str, b: &[u8]) -> Option<Result<(String,
 }
 
 /// compare the model value with the driver's JSON, on the model's keys
-fn value_matches(want: &Val, got: &J) -> bool {
+pub fn value_matches(want: &Val, got: &J) -> bool {
     match (want, got) {
         (Val::Int(a), J::Number(n)) => n.as_u64() == Some(*a),
         (Val::Bytes(a), J::Array(b)) => a.len() == b.len() && a.iter().zip(b).all(|(x, y)| y.as_u64() == Some(*x as u64)),
